@@ -484,12 +484,466 @@ theorem bitSet_clearBit {f : List Nat} {k b : Nat} (h : k < f.length) (m : Nat) 
       simp [e2, this]
   · simp [e]
 
---FMMU-SECTION--
+/-! ### the invariant behind `fmmu_windows_disjoint` -/
+
+/-- owns a process number in the bitmap (from the `pwrite` that sets its bit to the one that clears it) -/
+def _root_.Ebv.Parallel.Pc.owns : Pc → Bool
+  | .fmUnlock | .running | .removeMember | .rmdir | .detach | .removePin | .mbxRemove
+  | .fmRLock | .fmRRead | .fmRClear => true
+  | _ => false
+
+/-- holds the record lock of the bitmap file -/
+def _root_.Ebv.Parallel.Pc.locked : Pc → Bool
+  | .fmRead | .fmFix | .fmTrunc | .fmSet | .fmUnlock | .fmRRead | .fmRClear | .fmRUnlock => true
+  | _ => false
+
+/-- is repairing a short bitmap file -/
+def _root_.Ebv.Parallel.Pc.fixing : Pc → Bool
+  | .fmFix | .fmTrunc => true
+  | _ => false
+
+def fmOf (s : Sys) : List Nat := s.fm.getD []
+
+structure FInv (s : Sys) : Prop where
+  own : ∀ i, i < s.procs.length → (getP s i).pc.owns = true →
+    bitSet (fmOf s) (getP s i).fmNo = true ∧ (getP s i).fmNo < fmProcs ∧ fmSize ≤ (fmOf s).length
+  dist : ∀ i j, i < s.procs.length → j < s.procs.length → i ≠ j →
+    (getP s i).pc.owns = true → (getP s j).pc.owns = true → (getP s i).fmNo ≠ (getP s j).fmNo
+  lock : ∀ i, i < s.procs.length → (getP s i).pc.locked = true → s.fmLock = some i
+  bufSet : ∀ i, i < s.procs.length → (getP s i).pc = .fmSet →
+    (getP s i).fmBuf = (fmOf s).take fmSize ∧ fmSize ≤ (fmOf s).length
+  bufClr : ∀ i, i < s.procs.length → (getP s i).pc = .fmRClear →
+    (getP s i).fmBuf = [(fmOf s).getD ((getP s i).fmNo / 8) 0]
+  short : ∀ i, i < s.procs.length → (getP s i).pc = .fmFix → (fmOf s).length < fmSize
+  zeroed : ∀ i, i < s.procs.length → (getP s i).pc = .fmTrunc → fmOf s = fmZero ∧ (getP s i).fmBuf = fmZero
+  noOwn : ∀ i, i < s.procs.length → (getP s i).pc.fixing = true →
+    ∀ j, j < s.procs.length → (getP s j).pc.owns = false
+
+/-- the obligations of one operation of participant `i`, with the frame for everybody else -/
+theorem finv_update {s : Sys} (hI : FInv s) {i : Nat} (hi : i < s.procs.length) (s1 : Sys) (p' : Proc)
+    (hpr : s1.procs = s.procs)
+    (hkeep : ∀ j, j < s.procs.length → j ≠ i → (getP s j).pc.owns = true →
+      bitSet (fmOf s1) (getP s j).fmNo = true ∧ fmSize ≤ (fmOf s1).length)
+    (hown : p'.pc.owns = true →
+      (bitSet (fmOf s1) p'.fmNo = true ∧ p'.fmNo < fmProcs ∧ fmSize ≤ (fmOf s1).length) ∧
+      ∀ j, j < s.procs.length → j ≠ i → (getP s j).pc.owns = true → (getP s j).fmNo ≠ p'.fmNo)
+    (hlock : (p'.pc.locked = true → s1.fmLock = some i) ∧
+      ∀ j, j < s.procs.length → j ≠ i → (getP s j).pc.locked = true → s1.fmLock = some j)
+    (hbs : (p'.pc = .fmSet → p'.fmBuf = (fmOf s1).take fmSize ∧ fmSize ≤ (fmOf s1).length) ∧
+      ∀ j, j < s.procs.length → j ≠ i → (getP s j).pc = .fmSet →
+        (getP s j).fmBuf = (fmOf s1).take fmSize ∧ fmSize ≤ (fmOf s1).length)
+    (hbc : (p'.pc = .fmRClear → p'.fmBuf = [(fmOf s1).getD (p'.fmNo / 8) 0]) ∧
+      ∀ j, j < s.procs.length → j ≠ i → (getP s j).pc = .fmRClear →
+        (getP s j).fmBuf = [(fmOf s1).getD ((getP s j).fmNo / 8) 0])
+    (hsh : (p'.pc = .fmFix → (fmOf s1).length < fmSize) ∧
+      ∀ j, j < s.procs.length → j ≠ i → (getP s j).pc = .fmFix → (fmOf s1).length < fmSize)
+    (hz : (p'.pc = .fmTrunc → fmOf s1 = fmZero ∧ p'.fmBuf = fmZero) ∧
+      ∀ j, j < s.procs.length → j ≠ i → (getP s j).pc = .fmTrunc → fmOf s1 = fmZero ∧ (getP s j).fmBuf = fmZero)
+    (hno : (p'.pc.fixing = true ∨ ∃ j, j < s.procs.length ∧ j ≠ i ∧ (getP s j).pc.fixing = true) →
+      p'.pc.owns = false ∧ ∀ j, j < s.procs.length → j ≠ i → (getP s j).pc.owns = false) :
+    FInv (setP s1 i p') := by
+  have hi1 : i < s1.procs.length := by rw [hpr]; exact hi
+  have hg : ∀ j, getP (setP s1 i p') j = if j = i then p' else getP s j := by
+    intro j; rw [getP_setP _ _ _ _ hi1]; split <;> simp [getP_congr hpr]
+  have hlen : (setP s1 i p').procs.length = s.procs.length := by simp [hpr]
+  have hfm : fmOf (setP s1 i p') = fmOf s1 := rfl
+  refine ⟨?_, ?_, ?_, ?_, ?_, ?_, ?_, ?_⟩
+  · intro j hj ho; rw [hlen] at hj; rw [hg] at ho ⊢; rw [hfm]
+    split at ho
+    · next h => simp only [h, if_true]; exact (hown ho).1
+    · next h =>
+      simp only [h, if_false]
+      exact ⟨(hkeep j hj h ho).1, (hI.own j hj ho).2.1, (hkeep j hj h ho).2⟩
+  · intro a b ha hb hab hoa hob
+    rw [hlen] at ha hb; rw [hg] at hoa hob ⊢; rw [hg]
+    by_cases h1 : a = i <;> by_cases h2 : b = i <;> simp only [h1, h2, if_true, if_false] at hoa hob ⊢
+    · exact absurd (h1.trans h2.symm) hab
+    · exact fun e => (hown hoa).2 b hb h2 hob e.symm
+    · exact (hown hob).2 a ha h1 hoa
+    · exact hI.dist a b ha hb hab hoa hob
+  · intro j hj hl; rw [hlen] at hj; rw [hg] at hl
+    simp only [setP_fmLock]
+    split at hl
+    · next h => rw [h]; exact hlock.1 hl
+    · next h => exact hlock.2 j hj h hl
+  · intro j hj hpc; rw [hlen] at hj; rw [hg] at hpc ⊢; rw [hfm]
+    split at hpc
+    · next h => simp only [h, if_true]; exact hbs.1 hpc
+    · next h => simp only [h, if_false]; exact hbs.2 j hj h hpc
+  · intro j hj hpc; rw [hlen] at hj; rw [hg] at hpc ⊢; rw [hfm]
+    split at hpc
+    · next h => simp only [h, if_true]; exact hbc.1 hpc
+    · next h => simp only [h, if_false]; exact hbc.2 j hj h hpc
+  · intro j hj hpc; rw [hlen] at hj; rw [hg] at hpc; rw [hfm]
+    split at hpc
+    · exact hsh.1 hpc
+    · next h => exact hsh.2 j hj h hpc
+  · intro j hj hpc; rw [hlen] at hj; rw [hg] at hpc ⊢; rw [hfm]
+    split at hpc
+    · next h => simp only [h, if_true]; exact hz.1 hpc
+    · next h => simp only [h, if_false]; exact hz.2 j hj h hpc
+  · intro j hj hf k hk; rw [hlen] at hj hk; rw [hg] at hf; rw [hg]
+    have hh : p'.pc.fixing = true ∨ ∃ j, j < s.procs.length ∧ j ≠ i ∧ (getP s j).pc.fixing = true := by
+      split at hf
+      · exact Or.inl hf
+      · next h => exact Or.inr ⟨j, hj, h, hf⟩
+    obtain ⟨h1, h2⟩ := hno hh
+    split
+    · exact h1
+    · next h => exact h2 k hk h
+
+/-- an operation that does not write the bitmap file and does not make `i` an owner or a repairer -/
+theorem finv_same {s : Sys} (hI : FInv s) {i : Nat} (hi : i < s.procs.length) (s1 : Sys) (p' : Proc)
+    (hpr : s1.procs = s.procs) (hfm : fmOf s1 = fmOf s)
+    (hlock : (p'.pc.locked = true → s1.fmLock = some i) ∧
+      ∀ j, j < s.procs.length → j ≠ i → (getP s j).pc.locked = true → s1.fmLock = some j)
+    (hown : p'.pc.owns = true → (getP s i).pc.owns = true ∧ p'.fmNo = (getP s i).fmNo)
+    (hbs : p'.pc = .fmSet → p'.fmBuf = (fmOf s).take fmSize ∧ fmSize ≤ (fmOf s).length)
+    (hbc : p'.pc = .fmRClear → p'.fmBuf = [(fmOf s).getD (p'.fmNo / 8) 0])
+    (hsh : p'.pc = .fmFix → (fmOf s).length < fmSize)
+    (hz : p'.pc = .fmTrunc → (getP s i).pc = .fmTrunc ∧ p'.fmBuf = (getP s i).fmBuf)
+    (hfx : p'.pc.fixing = true → (getP s i).pc.fixing = true ∨ ∀ j, j < s.procs.length → (getP s j).pc.owns = false) :
+    FInv (setP s1 i p') := by
+  refine finv_update hI hi s1 p' hpr ?_ ?_ hlock ?_ ?_ ?_ ?_ ?_
+  · intro j hj _ ho; rw [hfm]; exact ⟨(hI.own j hj ho).1, (hI.own j hj ho).2.2⟩
+  · intro ho
+    obtain ⟨h1, h2⟩ := hown ho
+    rw [hfm, h2]
+    exact ⟨hI.own i hi h1, fun j hj hne hoj => hI.dist j i hj hi hne hoj h1⟩
+  · rw [hfm]; exact ⟨hbs, fun j hj _ h => hI.bufSet j hj h⟩
+  · rw [hfm]; exact ⟨hbc, fun j hj _ h => hI.bufClr j hj h⟩
+  · rw [hfm]; exact ⟨hsh, fun j hj _ h => hI.short j hj h⟩
+  · rw [hfm]
+    refine ⟨fun h => ?_, fun j hj _ h => hI.zeroed j hj h⟩
+    obtain ⟨a, b⟩ := hz h
+    rw [b]; exact hI.zeroed i hi a
+  · intro h
+    have key : ∀ j, j < s.procs.length → (getP s j).pc.owns = false := by
+      rcases h with h | ⟨j, hj, _, h⟩
+      · rcases hfx h with a | a
+        · exact hI.noOwn i hi a
+        · exact a
+      · exact hI.noOwn j hj h
+    refine ⟨?_, fun j hj _ => key j hj⟩
+    cases ho : p'.pc.owns
+    · rfl
+    · have := key i hi; rw [(hown ho).1] at this; cases this
+
+theorem finv_local {s : Sys} (hI : FInv s) {i : Nat} (hi : i < s.procs.length) (s1 : Sys) (p' : Proc)
+    (hpr : s1.procs = s.procs) (hfm : fmOf s1 = fmOf s) (hlk : s1.fmLock = s.fmLock)
+    (hlocked : p'.pc.locked = true → (getP s i).pc.locked = true)
+    (hown : p'.pc.owns = true → (getP s i).pc.owns = true ∧ p'.fmNo = (getP s i).fmNo)
+    (hbs : p'.pc = .fmSet → p'.fmBuf = (fmOf s).take fmSize ∧ fmSize ≤ (fmOf s).length)
+    (hbc : p'.pc = .fmRClear → p'.fmBuf = [(fmOf s).getD (p'.fmNo / 8) 0])
+    (hsh : p'.pc = .fmFix → (fmOf s).length < fmSize)
+    (hz : p'.pc = .fmTrunc → (getP s i).pc = .fmTrunc ∧ p'.fmBuf = (getP s i).fmBuf)
+    (hfx : p'.pc.fixing = true → (getP s i).pc.fixing = true ∨ ∀ j, j < s.procs.length → (getP s j).pc.owns = false) :
+    FInv (setP s1 i p') :=
+  finv_same hI hi s1 p' hpr hfm
+    ⟨fun h => by rw [hlk]; exact hI.lock i hi (hlocked h), fun j hj _ h => by rw [hlk]; exact hI.lock j hj h⟩
+    hown hbs hbc hsh hz hfx
+
+theorem nobody_locked {s : Sys} (hI : FInv s) {i : Nat} (h : canLock s i = true) :
+    ∀ j, j < s.procs.length → j ≠ i → (getP s j).pc.locked = false := by
+  intro j hj hne
+  cases hl : (getP s j).pc.locked
+  · rfl
+  · have := hI.lock j hj hl
+    simp only [canLock, this] at h
+    exact absurd (by simpa using h) hne
+
+theorem finv_acquire {s : Sys} (hI : FInv s) {i : Nat} (hi : i < s.procs.length) (s1 : Sys) (p' : Proc)
+    (hpr : s1.procs = s.procs) (hfm : fmOf s1 = fmOf s) (hlk : s1.fmLock = some i) (hcan : canLock s i = true)
+    (hown : p'.pc.owns = true → (getP s i).pc.owns = true ∧ p'.fmNo = (getP s i).fmNo)
+    (hpc : p'.pc = .fmRead ∨ p'.pc = .fmRRead) : FInv (setP s1 i p') :=
+  finv_same hI hi s1 p' hpr hfm
+    ⟨fun _ => hlk, fun j hj hne h => by rw [nobody_locked hI hcan j hj hne] at h; cases h⟩
+    hown (by rcases hpc with h | h <;> rw [h] <;> intro x <;> cases x)
+    (by rcases hpc with h | h <;> rw [h] <;> intro x <;> cases x)
+    (by rcases hpc with h | h <;> rw [h] <;> intro x <;> cases x)
+    (by rcases hpc with h | h <;> rw [h] <;> intro x <;> cases x)
+    (by rcases hpc with h | h <;> rw [h] <;> intro x <;> cases x)
+
+theorem other_not_locked {s : Sys} (hI : FInv s) {i : Nat} (hi : i < s.procs.length)
+    (hl : (getP s i).pc.locked = true) : ∀ j, j < s.procs.length → j ≠ i → (getP s j).pc.locked = false := by
+  intro j hj hne
+  cases h : (getP s j).pc.locked
+  · rfl
+  · exact absurd (Option.some.inj ((hI.lock j hj h).symm.trans (hI.lock i hi hl))) hne
+
+theorem finv_release {s : Sys} (hI : FInv s) {i : Nat} (hi : i < s.procs.length) (s1 : Sys) (p' : Proc)
+    (hpr : s1.procs = s.procs) (hfm : fmOf s1 = fmOf s)
+    (hwas : (getP s i).pc.locked = true) (hnow : p'.pc.locked = false)
+    (hown : p'.pc.owns = true → (getP s i).pc.owns = true ∧ p'.fmNo = (getP s i).fmNo)
+    (hpc : p'.pc ≠ .fmSet ∧ p'.pc ≠ .fmRClear ∧ p'.pc.fixing = false) : FInv (setP s1 i p') :=
+  finv_same hI hi s1 p' hpr hfm
+    ⟨fun h => (by rw [hnow] at h; cases h),
+     fun j hj hne h => (by rw [other_not_locked hI hi hwas j hj hne] at h; cases h)⟩
+    hown (fun h => absurd h hpc.1) (fun h => absurd h hpc.2.1)
+    (fun h => by have := hpc.2.2; rw [h] at this; cases this)
+    (fun h => by have := hpc.2.2; rw [h] at this; cases this)
+    (fun h => by rw [hpc.2.2] at h; cases h)
+
+theorem rmNo_eq (p : Proc) : rmNo p = p.fmNo := by
+  have : granted p ≤ maxGroups := Nat.min_le_right _ _
+  simp only [rmNo, lastAddr, maxGroups, fmWindow, fmGroup] at this ⊢
+  omega
+
+theorem no_byte {f : List Nat} {n : Nat} (hf : fmSize ≤ f.length) (hn : n < fmProcs) : n / 8 < f.length := by
+  simp only [fmSize, fmProcs] at hn hf; omega
+
+theorem pickNo_lt {buf : List Nat} {ds : List Nat} {n : Nat}
+    (h : pickNo buf ds = some n) : n < fmProcs ∧ bitSet buf n = false := by
+  induction ds with
+  | nil =>
+    simp only [pickNo] at h
+    have h1 := List.find?_some h
+    have h2 := List.mem_of_find?_eq_some h
+    simp only [Bool.and_eq_true, decide_eq_true_eq, Bool.not_eq_true'] at h1
+    exact ⟨List.mem_range.mp h2, h1.2⟩
+  | cons d r ih =>
+    simp only [pickNo] at h
+    split at h
+    · next hb =>
+      cases h
+      simp only [Bool.and_eq_true, decide_eq_true_eq, Bool.not_eq_true'] at hb
+      exact ⟨hb.1.2, hb.2⟩
+    · exact ih h
+
+theorem fixing_locked (pc : Pc) (h : pc.fixing = true) : pc.locked = true := by
+  cases pc <;> simp_all [Pc.fixing, Pc.locked]
+theorem fixing_not_owns (pc : Pc) (h : pc.fixing = true) : pc.owns = false := by
+  cases pc <;> simp_all [Pc.fixing, Pc.owns]
+
+/-- an operation of the lock holder that keeps the lock: nobody else is at a pc that needs the lock -/
+theorem finv_write {s : Sys} (hI : FInv s) {i : Nat} (hi : i < s.procs.length) (s1 : Sys) (p' : Proc)
+    (hpr : s1.procs = s.procs) (hlk : s1.fmLock = s.fmLock)
+    (hwas : (getP s i).pc.locked = true)
+    (hkeep : ∀ j, j < s.procs.length → j ≠ i → (getP s j).pc.owns = true →
+      bitSet (fmOf s1) (getP s j).fmNo = true ∧ fmSize ≤ (fmOf s1).length)
+    (hown : p'.pc.owns = true →
+      (bitSet (fmOf s1) p'.fmNo = true ∧ p'.fmNo < fmProcs ∧ fmSize ≤ (fmOf s1).length) ∧
+      ∀ j, j < s.procs.length → j ≠ i → (getP s j).pc.owns = true → (getP s j).fmNo ≠ p'.fmNo)
+    (hbs : p'.pc = .fmSet → p'.fmBuf = (fmOf s1).take fmSize ∧ fmSize ≤ (fmOf s1).length)
+    (hbc : p'.pc = .fmRClear → p'.fmBuf = [(fmOf s1).getD (p'.fmNo / 8) 0])
+    (hsh : p'.pc = .fmFix → (fmOf s1).length < fmSize)
+    (hz : p'.pc = .fmTrunc → fmOf s1 = fmZero ∧ p'.fmBuf = fmZero)
+    (hno : p'.pc.fixing = true → ∀ j, j < s.procs.length → (getP s j).pc.owns = false) :
+    FInv (setP s1 i p') := by
+  have hnl := other_not_locked hI hi hwas
+  have contra : ∀ j, j < s.procs.length → j ≠ i → ∀ q : Prop, (getP s j).pc.locked = true → q :=
+    fun j hj hne q h => by rw [hnl j hj hne] at h; cases h
+  refine finv_update hI hi s1 p' hpr hkeep hown ?_ ?_ ?_ ?_ ?_ ?_
+  · exact ⟨fun _ => by rw [hlk]; exact hI.lock i hi hwas, fun j hj hne h => contra j hj hne _ h⟩
+  · exact ⟨hbs, fun j hj hne h => contra j hj hne _ (by rw [h]; rfl)⟩
+  · exact ⟨hbc, fun j hj hne h => contra j hj hne _ (by rw [h]; rfl)⟩
+  · exact ⟨hsh, fun j hj hne h => contra j hj hne _ (by rw [h]; rfl)⟩
+  · exact ⟨hz, fun j hj hne h => contra j hj hne _ (by rw [h]; rfl)⟩
+  · intro h
+    rcases h with h | ⟨j, hj, hne, h⟩
+    · exact ⟨fixing_not_owns _ h, fun j hj _ => hno h j hj⟩
+    · exact contra j hj hne _ (fixing_locked _ h)
+
+theorem pwrite0_zero {f : List Nat} (h : f.length < fmSize) : pwrite0 f fmZero = fmZero := by
+  have : List.drop fmZero.length f = [] := by
+    apply List.drop_eq_nil_of_le; simp [fmZero]; omega
+  simp [pwrite0, this]
+
+/-- `os.pwrite(fd, zeros, 0)` of the repair path: the file was short, nobody owns a number -/
+theorem finv_fix {s : Sys} (hI : FInv s) {i : Nat} (hi : i < s.procs.length) (s1 : Sys) (p' : Proc)
+    (hpr : s1.procs = s.procs) (hlk : s1.fmLock = s.fmLock) (hpc : (getP s i).pc = .fmFix)
+    (hfm0 : s1.fm = some (pwrite0 (s.fm.getD []) fmZero)) (hpc' : p'.pc = .fmTrunc) (hb : p'.fmBuf = fmZero) :
+    FInv (setP s1 i p') := by
+  have hfm : fmOf s1 = pwrite0 (fmOf s) fmZero := by simp only [fmOf, hfm0, Option.getD_some]
+  have hno := hI.noOwn i hi (by rw [hpc]; rfl)
+  have hf : fmOf s1 = fmZero := by rw [hfm]; exact pwrite0_zero (hI.short i hi hpc)
+  refine finv_write hI hi s1 p' hpr hlk (by rw [hpc]; rfl) ?_ ?_ ?_ ?_ ?_ ?_ ?_
+  · intro j hj _ h; rw [hno j hj] at h; cases h
+  · rw [hpc']; intro h; cases h
+  · rw [hpc']; intro h; cases h
+  · rw [hpc']; intro h; cases h
+  · rw [hpc']; intro h; cases h
+  · exact fun _ => ⟨hf, hb⟩
+  · exact fun _ => hno
+
+/-- `os.ftruncate(fd, 64)` of the repair path -/
+theorem finv_trunc {s : Sys} (hI : FInv s) {i : Nat} (hi : i < s.procs.length) (s1 : Sys) (p' : Proc)
+    (hpr : s1.procs = s.procs) (hlk : s1.fmLock = s.fmLock) (hpc : (getP s i).pc = .fmTrunc)
+    (hfm0 : s1.fm = some ((s.fm.getD []).take fmSize)) (hpc' : p'.pc = .fmSet) (hb : p'.fmBuf = (getP s i).fmBuf) :
+    FInv (setP s1 i p') := by
+  have hfm : fmOf s1 = (fmOf s).take fmSize := by simp only [fmOf, hfm0, Option.getD_some]
+  have hno := hI.noOwn i hi (by rw [hpc]; rfl)
+  obtain ⟨hz, hbz⟩ := hI.zeroed i hi hpc
+  have hf : fmOf s1 = fmZero := by rw [hfm, hz]; simp [fmZero]
+  refine finv_write hI hi s1 p' hpr hlk (by rw [hpc]; rfl) ?_ ?_ ?_ ?_ ?_ ?_ ?_
+  · intro j hj _ h; rw [hno j hj] at h; cases h
+  · rw [hpc']; intro h; cases h
+  · intro _; rw [hb, hbz, hf]; simp [fmZero]
+  · rw [hpc']; intro h; cases h
+  · rw [hpc']; intro h; cases h
+  · rw [hpc']; intro h; cases h
+  · rw [hpc']; intro h; cases h
+
+theorem getD_take {f : List Nat} {k m : Nat} (h : k < m) : (f.take m).getD k 0 = f.getD k 0 := by
+  simp [List.getD_eq_getElem?_getD, List.getElem?_take, h]
+
+theorem bitSet_take {f : List Nat} {n : Nat} (hn : n < fmProcs) : bitSet (f.take fmSize) n = bitSet f n := by
+  have : n / 8 < fmSize := by simp only [fmSize, fmProcs] at hn ⊢; omega
+  simp only [bitSet, getD_take this]
+
+/-- the `pwrite` that sets the chosen bit -/
+theorem finv_set {s : Sys} (hI : FInv s) {i : Nat} (hi : i < s.procs.length) (s1 : Sys) (p' : Proc) (n : Nat)
+    (hpr : s1.procs = s.procs) (hpc : (getP s i).pc = .fmSet)
+    (hpick : pickNo (getP s i).fmBuf (getP s i).fmDraws = some n)
+    (hfm0 : s1.fm = some (pwriteByte (s.fm.getD []) (n / 8) ((getP s i).fmBuf.getD (n / 8) 0 ||| 2 ^ (n % 8))))
+    (hlk : s1.fmLock = s.fmLock) (hpc' : p'.pc = .fmUnlock) (hno : p'.fmNo = n) : FInv (setP s1 i p') := by
+  have hfm : fmOf s1 = pwriteByte (fmOf s) (n / 8) ((getP s i).fmBuf.getD (n / 8) 0 ||| 2 ^ (n % 8)) := by
+    simp only [fmOf, hfm0, Option.getD_some]
+  obtain ⟨hbuf, hlen⟩ := hI.bufSet i hi hpc
+  obtain ⟨hn, hfree⟩ := pickNo_lt hpick
+  rw [hbuf, bitSet_take hn] at hfree
+  have hk := no_byte hlen hn
+  have hk' : n / 8 < fmSize := by simp only [fmSize, fmProcs] at hn ⊢; omega
+  rw [hbuf, getD_take hk'] at hfm
+  refine finv_write hI hi s1 p' hpr hlk (by rw [hpc]; rfl) ?_ ?_ ?_ ?_ ?_ ?_ ?_
+  · intro j hj _ ho
+    rw [hfm, bitSet_setBit hk, (hI.own j hj ho).1, pwriteByte_len hk]
+    exact ⟨rfl, hlen⟩
+  · intro _
+    rw [hno, hfm, bitSet_setBit hk, pwriteByte_len hk]
+    refine ⟨⟨by simp, hn, hlen⟩, ?_⟩
+    intro j hj _ ho e
+    have := (hI.own j hj ho).1
+    rw [e, hfree] at this; cases this
+  · rw [hpc']; intro h; cases h
+  · rw [hpc']; intro h; cases h
+  · rw [hpc']; intro h; cases h
+  · rw [hpc']; intro h; cases h
+  · rw [hpc']; intro h; cases h
+
+/-- the `pwrite` of `FMMULock.remove` that clears the own bit -/
+theorem finv_clear {s : Sys} (hI : FInv s) {i : Nat} (hi : i < s.procs.length) (s1 : Sys) (p' : Proc) (k v : Nat)
+    (hpr : s1.procs = s.procs) (hpc : (getP s i).pc = .fmRClear)
+    (hk0 : k = rmNo (getP s i) / 8) (hv : v = clearBit ((getP s i).fmBuf.getD 0 0) (rmNo (getP s i) % 8))
+    (hfm0 : s1.fm = some (pwriteByte (s.fm.getD []) k v))
+    (hlk : s1.fmLock = s.fmLock) (hpc' : p'.pc = .fmRUnlock) : FInv (setP s1 i p') := by
+  have hfm : fmOf s1 = pwriteByte (fmOf s) k v := by simp only [fmOf, hfm0, Option.getD_some]
+  rw [hk0, hv] at hfm
+  have hbuf := hI.bufClr i hi hpc
+  have ho : (getP s i).pc.owns = true := by rw [hpc]; rfl
+  obtain ⟨_, hn, hlen⟩ := hI.own i hi ho
+  have hk := no_byte hlen hn
+  rw [rmNo_eq, hbuf] at hfm
+  simp only [List.getD_cons_zero] at hfm
+  refine finv_write hI hi s1 p' hpr hlk (by rw [hpc]; rfl) ?_ ?_ ?_ ?_ ?_ ?_ ?_
+  · intro j hj hne hoj
+    rw [hfm, bitSet_clearBit hk, (hI.own j hj hoj).1, pwriteByte_len hk]
+    refine ⟨?_, hlen⟩
+    have hd := hI.dist j i hj hi hne hoj ho
+    have : ¬ ((getP s j).fmNo / 8 = (getP s i).fmNo / 8 ∧ (getP s j).fmNo % 8 = (getP s i).fmNo % 8) := by
+      intro ⟨a, b⟩; omega
+    simp only [Bool.true_and, Bool.not_eq_true', Bool.and_eq_false_iff, beq_eq_false_iff_ne, ne_eq]
+    by_cases a : (getP s j).fmNo / 8 = (getP s i).fmNo / 8
+    · right; exact fun b => this ⟨a, b⟩
+    · left; exact a
+  · rw [hpc']; intro h; cases h
+  · rw [hpc']; intro h; cases h
+  · rw [hpc']; intro h; cases h
+  · rw [hpc']; intro h; cases h
+  · rw [hpc']; intro h; cases h
+  · rw [hpc']; intro h; cases h
+
+@[simp] theorem drawEt_fmDraws (p : Proc) : (drawEt p).2.fmDraws = p.fmDraws := by unfold drawEt; split <;> rfl
+@[simp] theorem drawEt_nAddr (p : Proc) : (drawEt p).2.nAddr = p.nAddr := by unfold drawEt; split <;> rfl
+@[simp] theorem drawEt_fmNo (p : Proc) : (drawEt p).2.fmNo = p.fmNo := by unfold drawEt; split <;> rfl
+@[simp] theorem drawEt_fmBuf (p : Proc) : (drawEt p).2.fmBuf = p.fmBuf := by unfold drawEt; split <;> rfl
+
+theorem take_len_eq {f : List Nat} (h : (f.take fmSize).length = fmSize) : fmSize ≤ f.length := by
+  simp only [List.length_take] at h; omega
+theorem take_len_ne {f : List Nat} (h : ¬ (f.take fmSize).length = fmSize) : f.length < fmSize := by
+  simp only [List.length_take] at h; omega
+
+theorem no_owner_of_short {s : Sys} (hI : FInv s) (h : (fmOf s).length < fmSize) :
+    ∀ j, j < s.procs.length → (getP s j).pc.owns = false := by
+  intro j hj
+  cases ho : (getP s j).pc.owns
+  · rfl
+  · have := (hI.own j hj ho).2.2; omega
+
+theorem finv_step {s : Sys} (hI : FInv s) (i : Nat) : FInv (step s i) := by
+  unfold step
+  split
+  case isFalse => exact hI
+  case isTrue hi =>
+    generalize hp : getP s i = p
+    cases hpc : p.pc <;> simp only [stepStart, stepFiles, stepExit, hpc]
+    all_goals (repeat' split)
+    all_goals (try exact hI)
+    all_goals (try (apply finv_local hI hi <;> first | rfl | (simp_all [emit, Pc.owns, Pc.locked, Pc.fixing]; done)))
+    all_goals subst hp
+    all_goals first
+      | (apply finv_acquire hI hi <;> first | rfl | assumption | exact Or.inl rfl | exact Or.inr rfl | (simp_all [emit, Pc.owns]; done))
+      | (apply finv_release hI hi <;> first | rfl | (rw [hpc]; rfl) | (simp_all [emit, Pc.owns, Pc.fixing]; done))
+      | (apply finv_fix hI hi <;> first | rfl | exact hpc)
+      | (apply finv_trunc hI hi <;> first | rfl | exact hpc)
+      | (refine finv_clear hI hi _ _ (rmNo (getP s i) / 8) (clearBit ((getP s i).fmBuf.getD 0 0) (rmNo (getP s i) % 8)) ?_ hpc ?_ ?_ ?_ ?_ ?_ <;> rfl)
+      | skip
+    case fmRead.isTrue h =>
+      have hl := take_len_eq h
+      apply finv_local hI hi <;> first | rfl | (simp_all [emit, Pc.owns, Pc.locked, Pc.fixing, fmOf]; done)
+    case fmRead.isFalse h =>
+      have hl := take_len_ne h
+      have hno := no_owner_of_short hI hl
+      apply finv_local hI hi <;> first | rfl | exact fun _ => Or.inr hno | exact fun _ => hl | (simp_all [emit, Pc.owns, Pc.locked, Pc.fixing]; done)
+    case fmRRead.isTrue =>
+      have hr := rmNo_eq (getP s i)
+      apply finv_local hI hi <;> first | rfl | (simp_all [emit, Pc.owns, Pc.locked, Pc.fixing, fmOf]; done)
+    case h_1 n hn =>
+      apply finv_set hI hi _ _ n <;> first | rfl | exact hpc | exact hn
+
+theorem finv_run {s : Sys} (hI : FInv s) (sched : List Nat) : FInv (run s sched) := by
+  induction sched generalizing s with
+  | nil => exact hI
+  | cons i r ih => exact ih (finv_step hI i)
+
+theorem finv_init (cfgs : List Cfg) (fm0 : Option (List Nat)) : FInv (init cfgs fm0) := by
+  have hpc : ∀ i, i < (init cfgs fm0).procs.length → (getP (init cfgs fm0) i).pc = .mkdtemp :=
+    fun i hi => (getP_init cfgs fm0 i hi).1
+  refine ⟨?_, ?_, ?_, ?_, ?_, ?_, ?_, ?_⟩
+  · intro i hi h; rw [hpc i hi] at h; cases h
+  · intro i j hi _ _ h; rw [hpc i hi] at h; cases h
+  · intro i hi h; rw [hpc i hi] at h; cases h
+  · intro i hi h; rw [hpc i hi] at h; cases h
+  · intro i hi h; rw [hpc i hi] at h; cases h
+  · intro i hi h; rw [hpc i hi] at h; cases h
+  · intro i hi h; rw [hpc i hi] at h; cases h
+  · intro i hi h; rw [hpc i hi] at h; cases h
+
+/-- **C23, FMMU windows**: for every schedule of any number of participants, any `randrange` draws, any
+number of `get_fmmu_addr` calls (calls beyond the process's range fail), any earlier contents of the bitmap
+file (absent, short, garbage) and with or without injected faults, the logical address windows of running
+participants are pairwise disjoint. -/
+theorem fmmu_windows_disjoint : fmmu_windows_disjoint_full := by
+  intro cfgs fm0 sched
+  have hI := finv_run (finv_init cfgs fm0) sched
+  generalize run (init cfgs fm0) sched = s at hI ⊢
+  intro i j hi hj hij hri hrj
+  have hoi : (getP s i).pc.owns = true := by rw [hri]; rfl
+  have hoj : (getP s j).pc.owns = true := by rw [hrj]; rfl
+  have hd := hI.dist i j hi hj hij hoi hoj
+  have hci : granted (getP s i) ≤ maxGroups := Nat.min_le_right _ _
+  have hcj : granted (getP s j) ≤ maxGroups := Nat.min_le_right _ _
+  simp only [disjoint, winLo, winLen, winBase, Bool.or_eq_true]
+  simp only [maxGroups, fmWindow, fmGroup] at hci hcj ⊢
+  rcases Nat.lt_or_gt_of_ne hd with h | h
+  · left; exact decide_eq_true (by omega)
+  · right; exact decide_eq_true (by omega)
+
 /-! ### the invariant behind `installed_while_running_partial` -/
 
 /-- member that is past the start section and has not begun to leave -/
 def _root_.Ebv.Parallel.Pc.post : Pc → Bool
-  | .mbxOpen | .mbxWrite | .mbxReopen | .fmOpen | .fmWrite | .fmLock | .fmRead | .fmFix | .fmTrunc | .fmSet
+  | .mbxOpen | .mbxWrite | .mbxReopen | .fmOpen | .fmLock | .fmRead | .fmFix | .fmTrunc | .fmSet
   | .fmUnlock | .running => true
   | _ => false
 
@@ -739,7 +1193,7 @@ directory, participant 3 joins and picks up the *old* table, runs — and partic
 programs file. -/
 def staleCfgs : List Cfg := [{}, { etDraws := [12288] }, {}, { etDraws := [12288], fmDraws := [3] }]
 def staleSched : List Nat :=
-  List.replicate 3 0 ++ List.replicate 8 1 ++ List.replicate 11 0 ++ [1] ++ List.replicate 3 2 ++
+  List.replicate 3 0 ++ List.replicate 8 1 ++ List.replicate 16 0 ++ [1] ++ List.replicate 3 2 ++
     List.replicate 14 3 ++ List.replicate 2 2
 
 theorem installed_while_running_stale_refuted :
@@ -774,7 +1228,7 @@ def faultCfgs : List Cfg :=
   [{ attachFails := true }, { etDraws := [12288] }, {}, { etDraws := [12288], fmDraws := [3] }]
 def faultSched : List Nat :=
   List.replicate 5 0 ++ List.replicate 7 1 ++ List.replicate 2 0 ++ List.replicate 7 2 ++
-    List.replicate 5 1 ++ List.replicate 14 3
+    List.replicate 10 1 ++ List.replicate 14 3
 
 theorem ethertypes_distinct_fault_refuted :
     ¬ EthertypesDistinct (run (init faultCfgs none) faultSched) := by
@@ -789,24 +1243,21 @@ theorem ethertypes_distinct_fault_refuted :
 leaves as last leaver and tears everything down, then 2 starts a new session and runs -/
 def orderlyCfgs : List Cfg := [{}, { etDraws := [12288], fmDraws := [2] }, { fmDraws := [5] }]
 def orderlySched : List Nat :=
-  List.replicate 11 0 ++ List.replicate 14 1 ++ List.replicate 3 0 ++ List.replicate 11 1 ++ List.replicate 14 2
+  List.replicate 16 0 ++ List.replicate 14 1 ++ List.replicate 3 0 ++ List.replicate 11 1 ++ List.replicate 14 2
 
 example : NoFault orderlyCfgs ∧ Quiet (init orderlyCfgs none) orderlySched = true := by decide +kernel
 example : (getP (run (init orderlyCfgs none) orderlySched) 2).pc = .running ∧
     (getP (run (init orderlyCfgs none) orderlySched) 1).pc = .done := by decide +kernel
-/-- two participants run side by side (so the clauses talk about something) -/
-example : (getP (run (init orderlyCfgs none) (orderlySched.take 25)) 0).pc = .running ∧
-    (getP (run (init orderlyCfgs none) (orderlySched.take 25)) 1).pc = .running ∧
-    (getP (run (init orderlyCfgs none) (orderlySched.take 25)) 0).et ≠
-      (getP (run (init orderlyCfgs none) (orderlySched.take 25)) 1).et := by decide +kernel
+/-- two participants run side by side with different ethertypes and different process numbers -/
+def sideBySide : Sys := run (init orderlyCfgs none) (orderlySched.take 30)
+example : (getP sideBySide 0).pc = .running ∧ (getP sideBySide 1).pc = .running ∧
+    (getP sideBySide 0).et ≠ (getP sideBySide 1).et ∧
+    (getP sideBySide 0).fmNo = 1 ∧ (getP sideBySide 1).fmNo = 2 := by decide +kernel
 /-- the witness schedules violate exactly the excluded hypotheses -/
 example : Quiet (init raceCfgs none) raceSched = false := by decide +kernel
 example : Quiet (init staleCfgs none) staleSched = false := by decide +kernel
-example : Bounded orderlyCfgs ∧ fmInit.length = fmSize := by decide
-example : ¬ Bounded overflowCfgs := by decide
-/-- with an initialised file both take the locked path and get different process numbers -/
-def initedSys : Sys := run (init orderlyCfgs (some fmInit)) (List.replicate 14 0 ++ List.replicate 14 1)
-example : (getP initedSys 0).pc = .running ∧ (getP initedSys 1).pc = .running ∧
-    (getP initedSys 0).fmNo = 2 ∧ (getP initedSys 1).fmNo = 3 := by decide +kernel
+/-- a participant asking for more addresses than its range holds fails in the body and leaves -/
+def greedy : Sys := run (init [{ nAddr := fmWindow / fmGroup }] none) (List.replicate 25 0)
+example : (getP greedy 0).pc = .failed ∧ greedy.attached = none ∧ greedy.pin = none := by decide +kernel
 
 end Ebv.C23
